@@ -8,14 +8,14 @@ class C10(common.SpecCheck):
     pid = "C10"
     title = "Statement order respects every data and control dependence"
     unit_fn = "units.c10:c10_unit"
-    QUICK = {"nseeds": 8, "specs": 150, "round": 150, "budget": 0}
-    TIEBREAKS = {"quick": 12, "thorough": 48}
+    QUICK = {"nseeds": 8, "specs": 320, "round": 320, "budget": 0}
+    TIEBREAKS = {"quick": 8, "thorough": 48}
     rule = ("specs of all classes (S, O, A, A+ (two projected tensors, occupancy split of an index-math rank), K, T in plain mode, M and Mp (partitioned, "
             "with mergers) in metrics mode) driven through the public IR "
             "API (Program.add_einsum, FlowGraph(program, metrics, ['hoist']), get_graph, get_sorted). Layer 1: the order "
             "each real hash seed produces. Layer 2 (fault/schedule seam): teaal.ir.flow_graph.nx is replaced, in the unit "
             "only, by a proxy whose topological_sort is Kahn's algorithm picking among ready nodes with the unit's PRNG "
-            "(12 quick / 48 thorough linear extensions per (spec, seed): newest-first, oldest-first, uniformly random, and "
+            "(8 quick / 48 thorough linear extensions per (spec, seed): newest-first, oldest-first, uniformly random, and "
             "targeted ones that schedule one PRNG-chosen node as early / as late as its recorded dependences allow). Invariants: sorted is a permutation of the "
             "graph's nodes; every edge (u,v) has pos(u) < pos(v); Loop/EndLoop well nested in loop order, Body innermost, "
             "Footer outside; nothing before Loop(r) is a descendant of Loop(r). Because a lost edge would pass vacuously, "
@@ -25,7 +25,7 @@ class C10(common.SpecCheck):
                    "compiler's own graph"]
 
     def gen(self, rng, k):
-        spec, meta = classes.gen_mixed(rng, [("S", 3), ("O", 5), ("A", 2), ("A+", 2), ("K", 2), ("T", 2), ("M", 3), ("Mp", 2)])
+        spec, meta = classes.gen_mixed(rng, [("S", 3), ("O", 8), ("Os", 3), ("A", 2), ("A+", 2), ("K", 2), ("T", 2), ("M", 3), ("Mp", 2)])
         return spec, meta
 
     def inputs(self, rng, spec, meta):
